@@ -196,6 +196,38 @@ def body(ck):
              "q_online": qon, "q_target": qtg, "stored[done,timeout]": [[bool(d), bool(t)] for d, t in zip(np.asarray(b.dones), np.asarray(b.timeouts))], "impl_loss": loss}
         cases.append(lit); cj.append(j)
         ck.case_seen(("e2e", idx) if lim == K else None); ck.count("dqn_end_to_end"); ck.count("e2e_coincidence" if lim == K else "e2e_other")
+    # ---- the same end to end for SAC: real warm-up of SAC.reset on the chain MDP (bounded Box actions), then the q_loss that the
+    #      real sac_train reports on exactly that buffer with tabular critics and a deterministic policy
+    for idx in range(9 if quick else 60):
+        K = int(rng.integers(2, 5)); lim = int(K + (idx % 3) - 1)
+        spec = chain_tab(rng, K, box_action=True)
+        stack = [["TimeLimit", lim]]
+        env = build_stack(TabEnv(spec), stack)
+        NO = K + 1
+        A = [dy(-4, 4, 4) for _ in range(NO)]; LPt = [dy(-8, 0, 4) for _ in range(NO)]
+        pol = StubSAC(A, LPt)
+        pspec = {"box": True, "NH": 1, "NHR": 1, "NA": 1, "ACT": [[[a]] for a in A], "V": [[0.0]] * NO, "LP": [[0.0]] * NO, "MU": [0.0] * NO}
+        L = int(2 ** int(rng.integers(1, 4))); gamma = float(rng.choice([0.5, 1.0, 0.75])); alpha = float(rng.choice([0.25, 0.5, 1.0]))
+        algo = SAC(buffer_size=L, gamma=gamma, learning_starts=L, num_envs=1, num_steps=1, batch_size=L, policy_frequency=1, autotune=True, initial_alpha=alpha,
+                   q_width_size=4, q_depth=1)
+        ck.current_case = {"kind": "sac-e2e", "K": K, "time_limit": lim, "L": L, "gamma": gamma, "alpha": alpha}
+        st = algo.reset(env, pol, key=jr.key(1000 + idx), callback=cb)
+        mk = lambda: StubCritic(jnp.asarray([dy(-8, 8, 2) for _ in range(NO)]), jnp.asarray(dy(-2, 2, 2)))
+        q1, q2, t1, t2 = mk(), mk(), mk(), mk()
+        log_alpha = jnp.log(jnp.asarray(alpha))
+        out = algo.sac_train(pol, algo.optimizer.init(eqx.filter(pol, eqx.is_inexact_array)), st.step_state.buffer, q1, q2, t1, t2,
+                             algo.q_optimizer.init((eqx.filter(q1, eqx.is_inexact_array), eqx.filter(q2, eqx.is_inexact_array))),
+                             log_alpha, algo.alpha_optimizer.init(log_alpha), jnp.asarray(-1.0), jnp.asarray(0), key=jr.key(idx))
+        q_loss = float(out[7]["q_loss"])
+        wl = lambda c: listl(ql(float(x)) for x in np.asarray(c.W))
+        lit = (f"CSacE2E {tab_lit(spec)} {listl(wd_lit(d) for d in stack)} {ptab_lit(pspec)} {L}%nat {ql(0.0)} {path_lit(((0, 0), (3, 0)))} {ql(gamma)} {ql(alpha)} "
+               f"{wl(q1)} {ql(float(q1.C))} {wl(q2)} {ql(float(q2.C))} {wl(t1)} {ql(float(t1.C))} {wl(t2)} {ql(float(t2.C))} "
+               f"{listl(ql(a) for a in A)} {listl(ql(x) for x in LPt)} {ql(q_loss)}")
+        b = st.step_state.buffer
+        j = {"kind": "SAC.sac_train q_loss on the buffer stored by SAC.reset warm-up", "chain_length": K, "time_limit": lim, "learning_starts": L, "gamma": gamma, "alpha": alpha,
+             "policy_actions": A, "policy_log_probs": LPt, "stored[done,timeout]": [[bool(d), bool(t)] for d, t in zip(np.asarray(b.dones), np.asarray(b.timeouts))], "impl_q_loss": q_loss}
+        cases.append(lit); cj.append(j)
+        ck.case_seen(("sac-e2e", idx) if lim == K else None); ck.count("sac_end_to_end"); ck.count("sac_e2e_coincidence" if lim == K else "sac_e2e_other")
     ck.current_case = None
     res = ck.run_coq_cases("C07Check", cases, shard=60, preamble="From Lerax Require Import Losses C08Check Env Tab OnPolicy.\nImport C07Check.")
     ck.classify(res, cj, sig_of=lambda i: "C07/" + cj[i]["kind"].split(".")[0].split(" ")[0], relation="Losses.dqn_loss / sac targets (dqn.py:216-241, sac.py:383-469) vs static losses / sac_train",
